@@ -168,6 +168,7 @@ Fixpoint yty_of_sx (fuel : nat) (a : sx) : option yty :=
                    | Some t =>
                        if String.eqb k "maybe" then Some (YMaybe t) else if String.eqb k "eref" then Some (YEitherRef t)
                        else if String.eqb k "ref" then Some (YRef t) else if String.eqb k "mref" then Some (YMaybeRef t)
+                       else if String.eqb k "hashed" then Some (YHashed t) else if String.eqb k "refraw" then Some (YRefRaw t)
                        else None
                    | None => None
                    end
@@ -199,19 +200,50 @@ Fixpoint xtree_of_sx (fuel : nat) (a : sx) : option xtree :=
     end
   end.
 
-(* c08.tlb: (cmp_rest desc tree) -> ('ok bits refs) | 'ok | 'err | 'panic | 'fuel *)
+Fixpoint bits_eqb (a b : bits) : bool :=
+  match a, b with
+  | [], [] => true
+  | x :: a', y :: b' => Bool.eqb x y && bits_eqb a' b'
+  | _, _ => false
+  end.
+Fixpoint xtree_eqb (a b : xtree) {struct a} : bool :=
+  match a, b with
+  | XT k1 b1 r1, XT k2 b2 r2 =>
+      N.eqb k1 k2 && bits_eqb b1 b2 &&
+      (fix go (x y : list xtree) {struct x} : bool :=
+         match x, y with
+         | [], [] => true
+         | p :: x', q :: y' => xtree_eqb p q && go x' y'
+         | _, _ => false
+         end) r1 r2
+  end.
+(* the cell at a path of reference indices *)
+Fixpoint at_path (c : xtree) (p : list sx) : option xtree :=
+  match p with
+  | [] => Some c
+  | SN i :: p' => match c with XT _ _ r => match nth_error r (N.to_nat i) with Some c' => at_path c' p' | None => None end end
+  | _ => None
+  end.
+(* the oracle column: paths of the cells on which boc.Cell.Hash() fails *)
+Definition hash_oracle (root : xtree) (paths : list sx) : xtree -> bool :=
+  let bad := flat_map (fun p => match p with SL l => match at_path root l with Some c => [c] | None => [] end | _ => [] end) paths in
+  fun c => negb (existsb (xtree_eqb c) bad).
+
+(* c08.tlb: (cmp_rest desc tree [hash-failure paths]) -> ('ok bits refs) | 'ok | 'err | 'panic | 'fuel *)
 Definition run_tlb (a : sx) : sx :=
-  match a with
-  | SL [SB cmp; d; tr] =>
+  let go (cmp : bool) (d tr : sx) (paths : list sx) : sx :=
       match yty_of_sx 64 d, xtree_of_sx 3000 tr with
       | Some t, Some c =>
-          match fst (yunmarshal [] 64 t c) with
+          match fst (yunmarshal [] (hash_oracle c paths) 64 t c) with
           | Ok s => if cmp then SL [SA "ok"; sx_nat (List.length (yb s)); sx_nat (List.length (yr s))] else SA "ok"
           | Err e => if N.eqb e EFuel then SA "fuel" else SA "err"
           | Panic _ => SA "panic"
           end
       | _, _ => sx_err "tlb-shape"
-      end
+      end in
+  match a with
+  | SL [SB cmp; d; tr] => go cmp d tr []
+  | SL [SB cmp; d; tr; SL paths] => go cmp d tr paths
   | _ => sx_err "tlb"
   end.
 
@@ -220,7 +252,7 @@ Definition run_tlbcost (a : sx) : sx :=
   match a with
   | SL [SB _; d; tr] =>
       match yty_of_sx 64 d, xtree_of_sx 3000 tr with
-      | Some t, Some c => let st := snd (yunmarshal [] 64 t c) in SL [SN (c_steps st); SN (c_alloc st)]
+      | Some t, Some c => let st := snd (yunmarshal [] (fun _ => true) 64 t c) in SL [SN (c_steps st); SN (c_alloc st)]
       | _, _ => sx_err "tlb-shape"
       end
   | _ => sx_err "tlbcost"
